@@ -13,6 +13,11 @@ from .sir import pp, strip, walk, AnalysisBroken
 
 REL_NEG = {"<": ">=", "<=": ">", ">": "<=", ">=": "<", "==": "!=", "!=": "=="}
 REL_MIRROR = {"<": ">", "<=": ">=", ">": "<", ">=": "<=", "==": "==", "!=": "!="}
+# external (std:: / xt::) non-const member functions that only hand out access, never modify
+ACCESSORS = {"operator[]", "operator()", "at", "flat", "front", "back", "begin", "end", "rbegin",
+             "rend", "cbegin", "cend", "data", "get", "operator*", "operator->", "unchecked",
+             "find", "lower_bound", "upper_bound", "top", "size", "shape", "empty", "count",
+             "storage", "derived_cast", "native_handle", "joinable", "owns_lock", "mutex"}
 ASSIGN_OPS = {"=", "+=", "-=", "*=", "/=", "%=", "&=", "|=", "^=", "<<=", ">>="}
 
 
@@ -98,6 +103,10 @@ class Walker:
         """state at the loop head given the state before the loop"""
         return st
 
+    def leave_scope(self, names, st):
+        """variables `names` go out of scope (RAII objects are destroyed)"""
+        return st
+
     def lib_call_kills(self, call, st):
         """conservative fact kill for a call"""
         return st
@@ -155,7 +164,8 @@ class Walker:
                 tgt = e.get("obj") if e.get("obj") is not None else (e.get("a") or [None])[0]
                 if tgt is not None:
                     st = self.on_write(tgt, st, e)
-            elif e.get("obj") is not None and not e.get("cm") and not e.get("sm"):
+            elif e.get("obj") is not None and not e.get("cm") and not e.get("sm") \
+                    and not (not e.get("lib") and e.get("bn", "").split("::")[-1] in ACCESSORS):
                 # non-const member call: the object may change
                 st = self.on_write(e["obj"], st, e)
             return self.lib_call_kills(e, st)
@@ -223,7 +233,8 @@ class Walker:
                     tgt = n.get("obj") if n.get("obj") is not None else (n.get("a") or [None])[0]
                     if tgt is not None:
                         out.add(pp(strip(tgt)))
-                elif n.get("obj") is not None and not n.get("cm") and not n.get("sm"):
+                elif n.get("obj") is not None and not n.get("cm") and not n.get("sm") \
+                        and not (not n.get("lib") and n.get("bn", "").split("::")[-1] in ACCESSORS):
                     out.add(pp(strip(n["obj"])))
             elif "d" in n and "n" in n and "k" not in n:
                 out.add(n["n"])  # declared variable (re-initialised per iteration)
@@ -245,10 +256,15 @@ class Walker:
             return st
         k = s.get("k")
         if k == "compound":
+            declared = []
             for c in s["b"]:
+                if c.get("k") == "decl":
+                    declared.extend(v["n"] for v in c["vars"])
                 st = self.exec(c, st)
                 if st is None:
                     break
+            if st is not None and declared:
+                st = self.leave_scope(declared, st)
             return st
         if k == "expr":
             return self.eval(s["e"], st)
